@@ -286,7 +286,10 @@ def _batch(ck: Checker) -> None:
     ck.floor("C13.batch", len(loops), 1, "chunk loop in HashesCache.get_many")
     for h in loops:
         c = h.ast.iter
-        bound = _resolve_int(ck, fn, c.args[1]) if len(c.args) > 1 else None
+        bound = None
+        if len(c.args) > 1:
+            for alt in value_alts(g, h, c.args[1], depth=3):
+                bound = bound if bound is not None else _resolve_int(ck, fn, alt)
         ck.require(bound is not None and 0 < bound <= 999, "C13.batch", fn, h, f"chunk size bound {bound} <= 999 (SQLite host-parameter limit)",
                    f"chunk size bound is {bound if bound is not None else norm(c.args[1]) if len(c.args) > 1 else '?'}: exceeds the portable SQLite limit of 999 parameters")
         ck.require(norm(c.args[0]) == "keys", "C13.batch", fn, h, "all requested keys are chunked", f"chunks are drawn from {norm(c.args[0])}, not from the requested keys", construct="batched(keys, ...)")
